@@ -64,6 +64,16 @@ Judge_validate(c) ==
         IF ~conf0 THEN Cl("C10.accept_write", "skip")
         ELSE IF ~nrm.ok THEN Cl("C10.accept_write", "unspec")
         ELSE Tri("C10.accept_write", c.sl.ok /\ MatchCanon(t, c.datum, c.sl.bytes, names, o0) /\ c.sl.back.ok /\ VEq(c.sl.back.v, nrm.v)),
+        \* the writers' own strict modes (exactly the schema's fields / absent only with a default); unions are left out: which branch a
+        \* strict writer takes is not pinned
+        IF "wstrict" \notin DOMAIN c THEN Cl("C10.strict_write", "skip")
+        ELSE IF HasUnionType(t, names, {}) THEN Cl("C10.strict_write", "unspec")
+        ELSE IF ~conf0 THEN Cl("C10.strict_write", "skip")      \* what a writer without validation does with non-conforming data is not claimed
+        ELSE Tri("C10.strict_write",
+                 /\ c.wstrict.ok = Conforms(t, c.datum, names, [strict |-> FALSE, tuples |-> c.tuples, wmode |-> "strict"])
+                 /\ c.wsad.ok = Conforms(t, c.datum, names, [strict |-> FALSE, tuples |-> c.tuples, wmode |-> "sad"])
+                 /\ (c.wstrict.ok => MatchCanon(t, c.datum, c.wstrict.bytes, names, o0))
+                 /\ (c.wsad.ok => MatchCanon(t, c.datum, c.wsad.bytes, names, o0))),
         \* a writer with validation enabled rejects everything validate rejects before emitting any byte of that record
         IF conf0 THEN (IF \E i \in 1..Len(expRecs) : ~expRecs[i].ok THEN Cl("C10.gate", "unspec")
                        ELSE Tri("C10.gate_accept", ~g.raised /\ pf.ok /\ Len(pf.records) = Len(expRecs)
